@@ -60,9 +60,12 @@ func (p *defaultPolicy[V]) processItems() {
 	for {
 		select {
 		case items := <-p.itemsCh:
+			verifObserve(vpPolPushRecv, uint64(len(items)), 0)
+			verifPoint(vpPolPushRecv)
 			p.Lock()
 			p.admit.Push(items)
 			p.Unlock()
+			verifPoint(vpPolPushed)
 		case <-p.stop:
 			p.done <- struct{}{}
 			return
@@ -81,9 +84,11 @@ func (p *defaultPolicy[V]) Push(keys []uint64) bool {
 
 	select {
 	case p.itemsCh <- keys:
+		verifObserve(vpPolRingPush, 1, uint64(len(keys)))
 		p.metrics.add(keepGets, keys[0], uint64(len(keys)))
 		return true
 	default:
+		verifObserve(vpPolRingPush, 0, uint64(len(keys)))
 		p.metrics.add(dropGets, keys[0], uint64(len(keys)))
 		return false
 	}
@@ -120,6 +125,7 @@ func (p *defaultPolicy[V]) Add(key uint64, cost int64) ([]*Item[V], bool) {
 
 	// incHits is the hit count for the incoming item.
 	incHits := p.admit.Estimate(key)
+	verifObserve(vpPolIncHits, key, uint64(incHits))
 	// sample is the eviction candidate pool to be filled via random sampling.
 	// TODO: perhaps we should use a min heap here. Right now our time
 	// complexity is N for finding the min. Min heap should bring it down to
@@ -138,6 +144,7 @@ func (p *defaultPolicy[V]) Add(key uint64, cost int64) ([]*Item[V], bool) {
 		minKey, minHits, minId, minCost := uint64(0), int64(math.MaxInt64), 0, int64(0)
 		for i, pair := range sample {
 			// Look up hit count for sample key.
+			verifObserve(vpPolSampleHits, pair.key, uint64(p.admit.Estimate(pair.key)))
 			if hits := p.admit.Estimate(pair.key); hits < minHits {
 				minKey, minHits, minId, minCost = pair.key, hits, i, pair.cost
 			}
@@ -150,6 +157,7 @@ func (p *defaultPolicy[V]) Add(key uint64, cost int64) ([]*Item[V], bool) {
 		}
 
 		// Delete the victim from metadata.
+		verifObserve(vpPolVictim, minKey, uint64(minCost))
 		p.evict.del(minKey)
 
 		// Delete the victim from sample.
@@ -278,6 +286,7 @@ func (p *sampledLFU) fillSample(in []*policyPair) []*policyPair {
 	}
 	for key, cost := range p.keyCosts {
 		in = append(in, &policyPair{key, cost})
+		verifObserve(vpPolSample, key, uint64(cost))
 		if len(in) >= lfuSample {
 			return in
 		}
